@@ -125,3 +125,10 @@ Theorem C10_field_stages_take_their_own_parameters :
   List.length T8fwd.cross_stage_field_indices = 22%nat.
 Proof. exact Fwd_tie.cross_stages_take_their_own_field. Qed.
 Print Assumptions C10_field_stages_take_their_own_parameters.
+
+(* the functions of this property whose Gallina counterpart is hand-written (or that only the oracles reach) still read, statement by statement, as they did when
+   the model was last validated against them (Gen/T9text.v regenerated from the source on every run; Proofs/Text_C10.v holds the validated text) *)
+From XV Require Gen.T9text Proofs.Text_C10.
+Theorem C10_hand_modelled_functions_read_as_validated : Text_C10.all_frozen.
+Proof. exact Text_C10.all_frozen_holds. Qed.
+Print Assumptions C10_hand_modelled_functions_read_as_validated.
